@@ -142,13 +142,13 @@ def run(ctx):
     ctx.build(ENGINE)
     cfg = "MCFetchSched_t.cfg" if thorough else "MCFetchSched_q.cfg"
     res = ctx.tlc("MCFetchSched", cfg, workers=1, timeout=3000 if thorough else 600, coverage=True, heap="8g",
-                  label="design model, exhaustive: C16_OneLive, C16_TableIsLive, C16_Capacity, C16_SessionConsistent, C16_Attribution (deviations disabled)")
+                  label="design model, exhaustive: C16_OneLive, C16_TableIsLive, C16_Capacity, C16_SessionConsistent, C16_Attribution, SessionHasConnection, LinkRecorded (the service still matches results by repository and peer only; the wire gate makes that sufficient)")
     ctx.tlc_ok(res, "MCFetchSched")
     if res.violated:
         ctx.violation(f"model:{res.violated}", "the design model violates the invariant", {"tlc": res.error_trace[:120]})
         return ctx.finish(rule=RULE)
     ctx.require_coverage(res, ["Attempt", "Connect", "Disconnect", "StaleDisconnect", "DialFail", "FetchCmd", "AnnFetch", "Wake", "Done"])
-    for name, cfgd, inv in (("late-same-peer", "MCFetchSched_dev1.cfg", "C16_Attribution"), ("late-any-peer", "MCFetchSched_dev2.cfg", "C16_OneLive"),
+    for name, cfgd, inv in (("late-forwarded + late-same-peer", "MCFetchSched_dev1.cfg", "C16_Attribution"), ("late-forwarded + late-any-peer", "MCFetchSched_dev2.cfg", "C16_OneLive"),
                             ("stale-link", "MCFetchSched_dev3.cfg", "SessionHasConnection")):
         dev = ctx.tlc("MCFetchSched", cfgd, workers=1, timeout=900, coverage=False, count=False, heap="8g",
                       label=f"sanity: deviation {name} must violate {inv}")
@@ -212,7 +212,7 @@ def run(ctx):
     ctx.cov["distinct_nontrivial"] = len(nontrivial)
     ctx.cov["samples"] += [scripts[len(scripted())], scripts[-1]]
     ctx.cov["exhaustive"] = not sampled
-    ctx.assumptions += ["service-level runs apply the rule of Wire::worker_result in the harness; the wire-level runs execute the real Wire (peers registered through the verif_established hook, no sockets)",
+    ctx.assumptions += ["service-level runs apply the rule of Wire::worker_result in the harness (a result is forwarded iff its peer is connected through the connection the task was started on); the wire-level runs execute the real Wire (peers registered through the verif_established hook, no sockets)",
                         "a reconnect is a disconnect followed by a connect",
                         "the repository's Peer test double drives the same Service code as the runtime"]
     return ctx.finish(rule=RULE, extra={"fetches_emitted": fetches, "model_behaviours": len(behaviours), "random_runs": nrand, "wire_level": wstats, "model_conformance": conformance,
